@@ -86,6 +86,7 @@ class Contract:
                  raises=None, modifies=None, effects=(), loops=None, locals=None, inline=False, funcs=None,
                  ghost=None, mode="prove", unroll=None, comps=None, name=None, setup=(), max_paths=None,
                  frame=None, lock=None, replay=None, timeout_ms=None, axioms=(), post_setup=(), pure_result=None, asserts=None, nonlinear=False, unreachable_ok=(),
+                 region=None, sort_facts=True, feas_timeout_ms=None, named_seqs=False,
                  fs_inv=(), fs_policy=(), fs_opts=None, call_pre=None, witnesses=None, abstract_str_order=False, label=""):
         self.key = key
         self.prop = prop if isinstance(prop, (list, tuple)) else [prop]
@@ -119,6 +120,10 @@ class Contract:
         self.post_setup = list(post_setup)
         self.asserts = dict(asserts or {})
         self.nonlinear = nonlinear
+        self.region = region
+        self.sort_facts = sort_facts
+        self.named_seqs = named_seqs
+        self.feas_timeout_ms = feas_timeout_ms   # budget of one branch-feasibility query (unknown counts as feasible: sound)
         # abstract file system (pyvc/fsmodel.py): crash invariant proved after every effect on the ghost `fs`,
         # effect policy proved at every effect (spec over fs_op / fs_target), fault-alphabet options
         self.fs_inv = _pairs(fs_inv)
@@ -175,6 +180,28 @@ class Registry:
         self.types.declare(name, t)
         return t
 
+    def keyrec(self, name, fields):
+        """a python dict with a fixed set of constant string keys, modelled as an (immutable, encodable) *record value* so
+        that it can live in lists/maps and compares with plain z3 datatype equality (cheap under quantifiers; use
+        R.dictshape -- presence bits, python dict equality -- when absent-key values must not influence `==`).
+        A key declared as "k?" may be absent (encoded as Optional: none = absent; a present key with value None is outside
+        the model): d[k] raises KeyError, d.get(k[, dflt]) yields None/dflt, `k in d` is false.  Other keys are always
+        present.  `{**d, "k": v}` yields the declared keyrec whose key set is the union.  Mutation is unsupported."""
+        self._fresh_name(name)
+        fs, opt = {}, set()
+        for k, v in fields.items():
+            t = self.types.parse(v)
+            if k.endswith("?"):
+                k = k[:-1]
+                opt.add(k)
+                t = TOpt(t)
+            fs[k] = t
+        t = TRec(name, fs, None)
+        t.dictshape = True      # (engine flag of this model; `dictlike` is R.record(..., dictlike=True), the has_k-style model)
+        t.optkeys = opt
+        self.types.declare(name, t)
+        return t
+
     def _fresh_name(self, name):
         if name in self.types.named and name not in ("K", "V"):
             raise ValueError("type name %r is declared twice across contract files (names are global)" % name)
@@ -220,10 +247,14 @@ class Registry:
         self.types.declare(name, t)
         return t
 
-    def untype(self, name, callable=None):
+    def untype(self, name, callable=None, strlike=False):
         """uninterpreted sort; with callable=<funtype name> its values are opaque callables (storable in
-        lists/tuples) whose calls obey that function contract (`self_fn` names the called value there)"""
+        lists/tuples) whose calls obey that function contract (`self_fn` names the called value there).
+        strlike=True: the values are python strings that the code only hashes, compares (==, <) and passes through
+        str(): an opaque totally ordered key sort (str(x) is x, isinstance(x, str))."""
         t = TUn(name)
+        if strlike:
+            STRLIKE.add(name)
         self.types.declare(name, t)
         if callable is not None:
             self.callable_uns[name] = callable
@@ -544,6 +575,8 @@ class Verifier:
             fn = z3.Function("uf_" + name, *([t.sort() for t in argts] + [rt.sort()]))
 
             def impl(I, args, kw, argts=argts, rt=rt, fn=fn):
+                if any(isinstance(a, VUndef) for a in args):
+                    return VUndef()
                 return rt.wrap(fn(*[unwrap(a, t) for a, t in zip(args, argts)]))
             return VFunc("builtin", name, impl=impl)
         if name in self.reg.ghostfuns:
@@ -886,6 +919,11 @@ class Verifier:
         self.abstract_str_order = bool(getattr(c, 'abstract_str_order', False))
         if c.timeout_ms:
             self.timeout_ms = c.timeout_ms
+        saved_feas = self.feas_timeout_ms
+        self.feas_rlimit = None
+        if getattr(c, "feas_timeout_ms", None):
+            self.feas_timeout_ms = c.feas_timeout_ms
+            self.feas_rlimit = int(c.feas_timeout_ms * float(os.environ.get("PYVC_FEAS_RLIMIT_PER_MS", "1500")))
         mod, cls, node = frontend.find_function(c.key, self.repo)
         limit = c.max_paths or self.max_paths
         try:
@@ -906,6 +944,8 @@ class Verifier:
         finally:
             self.timeout_ms = saved_to
             self.nonlinear = saved_nl
+            self.feas_timeout_ms = saved_feas
+            self.feas_rlimit = None
             self.abstract_str_order = False
         if self.exits == 0 and not self.errors:
             self.errors.append("vacuous: no path reaches a function exit (contradictory requires?)")
@@ -929,7 +969,7 @@ class Verifier:
                         collect(getattr(st, f, []) or [])
                     for h in getattr(st, "handlers", []) or []:
                         collect(h.body)
-            collect(node.body)
+            collect(region_body(c, mod, node))
             missing = sorted(want - self.covered - set(x for x in c.unreachable_ok if isinstance(x, int)))
             if missing:
                 self.errors.append("vacuity guard: statements at lines %s of %s are never reached on any explored path "
@@ -1038,7 +1078,7 @@ class Verifier:
             if c.mode == "bounded" and c.unroll:
                 self.unroll_bound = c.unroll
             try:
-                I.exec_block(node.body, env)
+                I.exec_block(region_body(c, mod, node), env)
                 result = VNone()
             except ReturnSig as r:
                 result = r.v
@@ -1145,6 +1185,43 @@ class Verifier:
             extra["exc_msg"] = exc.args[0]
         for nm, src in c.ensures_exc:
             path.prove(I.eval_spec(src, env, extra=extra), "%s/post-exc:%s" % (c.short, nm), "post", where=src)
+
+
+def region_body(c, mod, node):
+    """Region contracts: `region=(first, last)` verifies only the consecutive statements of one statement list of
+    the function, from the statement whose source text starts with `first` to the one starting with `last`
+    (both anchors must be unique among the statements of the function; nested defs included).  Live-in locals are
+    declared in `types`; the clauses may mention the locals live at the region end.  Anchors are matched against
+    the source as it is on disk now: a vanished anchor is an error, never a silent pass."""
+    if not c.region:
+        return node.body
+    cached = getattr(c, "_region_cache", None)
+    if cached is not None and cached[0] is node:
+        return cached[1]
+    first, last = c.region
+    hits = []
+
+    def norm(st):
+        return " ".join(mod.segment(st).split())
+
+    def walk(n):
+        for fld in ("body", "orelse", "finalbody"):
+            lst = getattr(n, fld, None)
+            if isinstance(lst, list) and lst and isinstance(lst[0], ast.stmt):
+                starts = [i for i, st in enumerate(lst) if norm(st).startswith(first)]
+                for i in starts:
+                    ends = [j for j in range(i, len(lst)) if norm(lst[j]).startswith(last)]
+                    if ends:
+                        hits.append(lst[i:ends[0] + 1])
+                for st in lst:
+                    walk(st)
+        for h in getattr(n, "handlers", []) or []:
+            walk(h)
+    walk(node)
+    if len(hits) != 1:
+        raise Unsupported("region anchors %r .. %r match %d statement ranges in %s" % (first, last, len(hits), c.key))
+    c._region_cache = (node, hits[0])
+    return hits[0]
 
 
 def exec_ghost(self, st, env, extra=None, skip_unbound=False, raise_obl=None):
